@@ -1,8 +1,61 @@
 import Solvor.Common.Proto
 import Solvor.Cut.Model
-/-! Cut: line-protocol handler. One request line in, one reply line out. -/
-namespace Solvor.Cut
+/-! Cut: line-protocol handler.
 
-def handle (line : String) : String := "unimplemented " ++ line
+request `["case", mode, W, sizes, demands, cols, plan, obj, duals]`
+  mode    : "cs" (cutting stock: admissible = fits in width `W` with piece `sizes`) or
+            "cols" (custom: admissible = member of the explicit column list `cols`)
+  plan    : `null` or the implementation's plan `[[pattern, count], ...]`
+  obj     : `null` or the implementation's objective as an exact rational `[num, den]`
+  duals   : `null` or the dual vector the implementation priced last, exact rationals
+reply `[opt, planOk, [feasOk, coversOk, objOk], rolls, [dualFeas, dualBound]]`
+  opt      : exact optimum (`minRolls`, proved minimal) or `null` (demands cannot be covered)
+  planOk   : verified checker `checkPlan` on the implementation's plan and objective
+  feasOk.. : the three conjuncts of the checker, for the failure class only
+  rolls    : `rolls plan`
+  dualFeas : verified `dualFeasible` on the duals after clamping negatives to 0 and scaling by
+             `max 1 (max_p y·p)`; dualBound : `⌈y·d⌉` of that vector (≤ optimum by `dual_bound`)
+-/
+namespace Solvor.Cut
+open Solvor.Proto
+
+def parsePlan (v : Val) : Option Plan := do
+  let xs ← v.toArr?
+  xs.mapM fun e => do
+    match e with
+    | Val.arr [p, c] => some ((← p.toNats?), (← c.toNat?))
+    | _ => none
+
+def handle (line : String) : String :=
+  match request line with
+  | some ("case", [mode, w, sizes, dem, cols, plan, obj, duals]) =>
+    match mode.toStr?, w.toNat?, sizes.toNats?, dem.toNats?, cols.toNatss?,
+          Val.toOpt? parsePlan plan, Val.toOpt? Val.toRat? obj, Val.toOpt? Val.toRats? duals with
+    | some mode, some w, some sizes, some dem, some cols, some plan, some obj, some duals =>
+      let cs := mode == "cs"
+      let feasB : Pat → Bool := if cs then fitsB w sizes else inColsB cols
+      let opt : Option Nat := if cs then csOpt w sizes dem else minRolls cols dem dem.sum
+      let objN : Option Nat := match obj with
+        | some q => if q.den == 1 && 0 ≤ q.num then some q.num.toNat else none
+        | none => none
+      let (ok, parts, r) : Bool × List Bool × Nat := match plan with
+        | some pl =>
+          let f := pl.all (fun pc => feasB pc.1)
+          let c := (List.range dem.length).all (fun i => decide (dem.getD i 0 ≤ produced pl i))
+          let o := match objN with | some n => n == rolls pl | none => false
+          ((match objN with | some n => checkPlan feasB dem pl n | none => false), [f, c, o], rolls pl)
+        | none => (false, [], 0)
+      let dual : Val := match duals with
+        | some y =>
+          let y0 := y.map fun q => if q < 0 then 0 else q
+          let m : Rat := if cs then knapMax w sizes y0 else cols.foldl (fun a p => maxQ a (dotQ y0 p)) 0
+          let y1 := scaleDual m y0
+          let f := if cs then dualFeasible w sizes y1 else dualFeasibleCols cols y1
+          Val.arr [Val.bool f, Val.int (dualBound y1 dem)]
+        | none => Val.null
+      (Val.arr [Val.ofOpt (fun (n : Nat) => Val.int n) opt, Val.bool ok,
+        Val.arr (parts.map Val.bool), Val.int r, dual]).render
+    | _, _, _, _, _, _, _, _ => err "bad arguments"
+  | _ => err "bad request"
 
 end Solvor.Cut
